@@ -66,17 +66,43 @@ def clone_input(f):
         c = io.BytesIO(f.getvalue())
         c.seek(f.tell())
         return c
+    if hasattr(f, "seek") and hasattr(f, "tell") and hasattr(f, "read"):     # a temporary file made by copy_body
+        try:
+            pos = f.tell()
+            f.seek(0)
+            c = io.BytesIO(f.read())
+            f.seek(pos)
+            c.seek(pos)
+            return c
+        except Exception:  # noqa
+            return f
     return f
 
 
-def fresh_request(env):
-    """A brand-new Request over a copy of the environ stripped of webob's cache keys; the body
+_CLASSES = {}
+
+
+def wrapper_class(name):
+    """The configurations of the wrapper itself: webob.Request, BaseRequest (no ad-hoc attribute mixin), and a subclass
+    overriding the class-level knob request_body_tempfile_limit (bodies of more than 8 bytes go to a temporary file)."""
+    if not _CLASSES:
+        from webob import Request
+        from webob.request import BaseRequest
+
+        class SmallTemp(Request):
+            request_body_tempfile_limit = 8
+
+        _CLASSES.update({"Request": Request, "BaseRequest": BaseRequest, "SmallTemp": SmallTemp})
+    return _CLASSES[name]
+
+
+def fresh_request(env, cls=None):
+    """A brand-new Request (of the wrapper's class) over a copy of the environ stripped of webob's cache keys; the body
     object is cloned so that reading it through the new wrapper cannot disturb the original."""
-    from webob import Request
     e = {k: v for k, v in env.items() if k not in CACHE_KEYS}
     if "wsgi.input" in e:
         e["wsgi.input"] = clone_input(e["wsgi.input"])
-    return Request(e)
+    return (cls or wrapper_class("Request"))(e)
 
 
 def decode_value(spec):
@@ -99,10 +125,56 @@ def decode_value(spec):
             return CacheControl({k: decode_value(v) for k, v in spec["cc"]}, type="request")
         if "true" in spec:
             return True
+        if "obj" in spec:
+            return make_object(spec["obj"])
+        if "pairs" in spec:
+            return [(k, decode_value(v)) for k, v in spec["pairs"]]
+        if "multidict" in spec:
+            from webob.multidict import MultiDict
+            return MultiDict([(k, decode_value(v)) for k, v in spec["multidict"]])
+        if "iter" in spec:
+            return iter([(k, decode_value(v)) for k, v in spec["iter"]])
         raise ValueError(spec)
     if isinstance(spec, list):
         return [decode_value(x) for x in spec]
     return spec
+
+
+def make_object(name):
+    """Typed objects that setters accept besides text."""
+    import webob.acceptparse as ap
+    from webob.byterange import Range
+    from webob.cachecontrol import CacheControl
+    from webob.etag import ETagMatcher, IfRange
+    if name == "range":
+        return Range(0, 5)
+    if name == "accept":
+        return ap.create_accept_header("text/html;q=0.5, a/b")
+    if name == "accept_none":
+        return ap.AcceptNoHeader()
+    if name == "accept_invalid":
+        return ap.AcceptInvalidHeader(", ,")
+    if name == "accept_language":
+        return ap.create_accept_language_header("en, fr;q=0.3")
+    if name == "etag":
+        return ETagMatcher(["a", "b"])
+    if name == "ifrange":
+        return IfRange.parse('"a"')
+    if name == "timedelta":
+        return datetime.timedelta(seconds=60)
+    if name == "date":
+        return datetime.date(2001, 2, 3)
+    if name == "timetuple":
+        return (1994, 11, 6, 8, 49, 37, 6, 310, 0)
+    if name == "float":
+        return 784111777.5
+    if name == "bytearray":
+        return bytearray(b"abc")
+    if name == "cc_response":
+        return CacheControl({"max-age": 3, "public": None}, type="response")
+    if name == "object":
+        return object()
+    raise ValueError(name)
 
 
 def canon(v, depth=0):
@@ -161,6 +233,17 @@ def _peek_file(f):
         return ["BytesIO", f.getvalue()]
     if isinstance(f, Stream):
         return ["Stream", f.data[f.pos:]]
+    if hasattr(f, "seek") and hasattr(f, "tell") and hasattr(f, "read"):
+        # where the body is kept (memory or temporary file) is a storage decision of the wrapper's class: compare content
+        try:
+            pos = f.tell()
+            f.seek(0)
+            data = f.read()
+            f.seek(pos)
+            if isinstance(data, bytes):
+                return ["BytesIO", data]
+        except Exception:  # noqa  (sys.stderr, closed files)
+            pass
     return ["file", type(f).__name__]
 
 
@@ -194,7 +277,7 @@ def getter_fn(name):
     if name == "body_file_raw":
         return lambda r: _peek_file(r.body_file_raw)
     if name == "body_file":
-        return lambda r: ["file", type(r.body_file).__name__]
+        return lambda r: _peek_file(r.body_file)
     if name == "headers.detail":
         return lambda r: [len(r.headers), sorted(r.headers.keys()), ["Content-Type" in r.headers, "cookie" in r.headers,
                                                                    r.headers.get("HOST"), r.headers.get("x-foo", "dflt")]]
@@ -215,7 +298,9 @@ def getter_fn(name):
     if name == "copy":
         return lambda r: (lambda c: [c.method, c.url, c.content_type, c.body, sorted(c.headers.items())])(r.copy())
     if name == "decode":
-        return lambda r: (lambda c: [c.method, c.url, c.content_type, c.body])(r.decode())
+        # (decode() may hand back a new Request that SHARES a non-seekable input stream with the original: reading that
+        #  body would consume the original's stream, which is the stream's state, not the Request's)
+        return lambda r: (lambda c: [c.method, c.url, c.content_type, c.body if c.is_body_seekable else None])(r.decode())
     if name == "repr":
         return lambda r: repr(r).split(" at 0x")[0] + " " + repr(r).split(" ", 3)[-1]
     return lambda r: getattr(r, name)
@@ -240,9 +325,9 @@ class World:
     """One environ, two long-lived wrappers over it, and the views handed out so far."""
 
     def __init__(self, envspec, prime=True):
-        from webob import Request
         self.env = make_environ(envspec)
-        self.w = [Request(self.env), Request(self.env)]
+        names = envspec.get("classes") or ["Request", "Request"]
+        self.w = [wrapper_class(n)(self.env) for n in names]
         self.gets = []      # held GetDict handles
         self.ccs = []       # held CacheControl handles
         self.jars = []      # held RequestCookies handles
@@ -257,7 +342,8 @@ def make_environ(spec):
     import sys
     kind = spec.get("kind", "blank")
     if kind == "blank":
-        env = Request.blank(spec.get("path", "/")).environ
+        kw = {k: decode_value(v) for k, v in spec.get("blank_kw", {}).items()}
+        env = Request.blank(spec.get("path", "/"), **kw).environ
     else:
         # what a WSGI server (wsgiref-style) hands to the application
         env = {
@@ -303,6 +389,7 @@ def same_object(d, key, default):
 
 def md_apply(d, m):
     """A MultiDict mutation m = [name, args...] on the view d."""
+    m = [m[0]] + [decode_value(x) for x in m[1:]]
     t = m[0]
     if t == "set":
         return catch(d.__setitem__, m[1], m[2])
@@ -323,7 +410,29 @@ def md_apply(d, m):
         return catch(d.extend, [tuple(p) for p in m[1]])
     if t == "clear":
         return catch(d.clear)
+    # the alternative accepted argument types / optional arguments
+    if t == "setdefault_none":
+        return catch(d.setdefault, m[1])
+    if t == "update_dict":
+        return catch(d.update, {a: b for a, b in m[1]})
+    if t == "update_md":
+        from webob.multidict import MultiDict
+        return catch(d.update, MultiDict([tuple(p) for p in m[1]]))
+    if t == "update_kw":
+        return catch(lambda: d.update(**{a: b for a, b in m[1]}))
+    if t == "extend_dict":
+        return catch(d.extend, {a: b for a, b in m[1]})
+    if t == "extend_md":
+        from webob.multidict import MultiDict
+        return catch(d.extend, MultiDict([tuple(p) for p in m[1]]))
+    if t == "extend_iter":
+        return catch(d.extend, iter([tuple(p) for p in m[1]]))
+    if t == "extend_kw":
+        return catch(lambda: d.extend(**{a: b for a, b in m[1]}))
     raise ValueError(m)
+
+
+BULK_MD = ("update", "extend", "update_dict", "update_md", "update_kw", "extend_dict", "extend_md", "extend_iter", "extend_kw")
 
 
 def cc_apply(cc, m):
@@ -376,7 +485,7 @@ def apply_op(W, op, rec=None):
             h = req.headers
         else:
             h = pick(W.hdrs, how)
-        m = op[3]
+        m = [op[3][0]] + [decode_value(x) for x in op[3][1:]]
         k = m[0]
         if k == "set":
             return canon(catch(h.__setitem__, m[1], m[2]))
@@ -392,6 +501,20 @@ def apply_op(W, op, rec=None):
             return canon(catch(h.clear))
         if k == "assign":     # req.headers = {...}
             return canon(catch(setattr, req, "headers", {a: b for a, b in m[1]}))
+        if k == "update_pairs":
+            return canon(catch(h.update, [tuple(x) for x in m[1]]))
+        if k == "update_md":
+            from webob.multidict import MultiDict
+            return canon(catch(h.update, MultiDict([tuple(x) for x in m[1]])))
+        if k == "pop_nodefault":
+            return canon(catch(h.pop, m[1]))
+        if k == "setdefault_none":
+            return canon(catch(h.setdefault, m[1]))
+        if k == "assign_pairs":
+            return canon(catch(setattr, req, "headers", [tuple(x) for x in m[1]]))
+        if k == "assign_headers":     # the headers view of another request
+            other = wrapper_class("Request")({"HTTP_" + a.upper().replace("-", "_"): b for a, b in m[1]})
+            return canon(catch(setattr, req, "headers", other.headers))
         raise ValueError(op)
     if t == "hold":           # ["hold", w, what]: keep a handle to a view for later use
         what = op[2]
@@ -403,13 +526,15 @@ def apply_op(W, op, rec=None):
         d = catch(lambda: req.GET) if op[2] == "fresh" or not W.gets else pick(W.gets, op[2])
         if isinstance(d, Err):
             return canon(d)
+        if rec and hasattr(rec, "before_get"):
+            rec.before_get(d)
         r = canon(md_apply(d, op[3]))
         if rec:
             rec.after_get(d)
         return r
     if t == "cookies":        # ["cookies", w, how, mutation]
         j = req.cookies if op[2] == "fresh" or not W.jars else pick(W.jars, op[2])
-        m = op[3]
+        m = [op[3][0]] + [decode_value(x) for x in op[3][1:]]
         if rec:
             rec.before_cookie(env, m)
         if m[0] == "set":
@@ -424,6 +549,14 @@ def apply_op(W, op, rec=None):
             return canon(catch(j.update, {a: b for a, b in m[1]}))
         if m[0] == "assign":
             return canon(catch(setattr, req, "cookies", {a: b for a, b in m[1]}))
+        if m[0] == "pop_nodefault":
+            return canon(catch(j.pop, m[1]))
+        if m[0] == "setdefault":
+            return canon(catch(j.setdefault, m[1], m[2]))
+        if m[0] == "update_pairs":
+            return canon(catch(j.update, [tuple(x) for x in m[1]]))
+        if m[0] == "assign_pairs":
+            return canon(catch(setattr, req, "cookies", [tuple(x) for x in m[1]]))
         raise ValueError(op)
     if t == "cc":             # ["cc", w, how, mutation]
         c = catch(lambda: req.cache_control) if op[2] == "fresh" or not W.ccs else pick(W.ccs, op[2])
@@ -440,7 +573,23 @@ def apply_op(W, op, rec=None):
         else:
             read(req, op[2])
         return None
+    if t == "callkw":         # ["callkw", w, method, args, [[name, value]...]]: the same methods with keyword arguments
+        return canon(catch(lambda: getattr(req, op[2])(*[decode_value(a) for a in op[3]],
+                                                       **{k: decode_value(v) for k, v in op[4]})))
+    if t == "construct":      # ["construct", w, class, [[name, value]...]]: a new long-lived wrapper, written through
+        cls = wrapper_class(op[2])          # the constructor's keywords; it replaces wrapper w
+        r = catch(lambda: cls(env, **{k: decode_value(v) for k, v in op[3]}))
+        if isinstance(r, Err):
+            return canon(r)
+        W.w[op[1] % 2] = r
+        W.sticky[op[1] % 2] = catch(lambda: r.charset)
+        return None
+    if t == "knob":           # ["knob", w, name, value]: a class-level knob set on the instance after construction
+        return canon(catch(setattr, req, op[2], decode_value(op[3])))
     if t == "adhoc":          # ["adhoc", w, name, value]
+        from webob.request import AdhocAttrMixin
+        if not isinstance(req, AdhocAttrMixin):
+            return None       # BaseRequest: a plain Python attribute of the object, not a request attribute
         return canon(catch(setattr, req, op[2], decode_value(op[3])))
     if t == "urlvars":        # ["urlvars", w, key, value]: mutate the dict handed out by req.urlvars
         return canon(catch(lambda: req.urlvars.__setitem__(op[2], op[3])))
@@ -474,7 +623,10 @@ class LastView:
     """Remembers the view an operation went through (for the write-lands checks)."""
 
     def __init__(self):
-        self.get = self.cookie = self.cc = None
+        self.get = self.cookie = self.cc = self.items = None
+
+    def before_get(self, d):
+        self.items = [[canon(a), canon(b)] for a, b in d.items()]
 
     def after_get(self, d):
         self.get = d
@@ -500,7 +652,7 @@ def compare_all(W, step, op, getters, rng=None):
         rng.shuffle(order)
     for wi, A in enumerate(W.w):
         for g in order:
-            F = fresh_request(env)
+            F = fresh_request(env, type(A))
             if g in USES_CHARSET or g == "charset":
                 cs = catch(lambda: A.charset)
                 fcs = catch(lambda: F.charset)
@@ -526,14 +678,32 @@ def compare_all(W, step, op, getters, rng=None):
                     return ("POST:cached-parse-not-returned", "step %d %r: POST differs from the parse cached for this body object"
                             % (step, op))
                 continue
-            pre = dict(env) if g.startswith("cache_control") else None
+            pre = dict(env) if g.startswith(("cache_control", "GET", "params")) else None
             a = read(A, g)
             f = read(F, g)
+            if a != f and g in nonstr_dependents(env):
+                continue      # outside the statement: a CGI key holds something that is not a native string
             if a != f:
                 return (classify(g, op, a, f, pre),
                         "step %d %r: request.%s through long-lived wrapper %d = %r but a brand-new Request over the same "
                         "environ reports %r" % (step, op, g, wi, a, f))
     return None
+
+
+# getters that parse a CGI key; when that key holds a non-string (None, int, bytes: not a WSGI environ any more) the
+# long-lived wrapper and a brand-new Request may fail differently -- every OTHER getter must still agree
+PARSES = {
+    "HTTP_COOKIE": {"cookies", "cookies.detail"},
+}
+
+
+def nonstr_dependents(env):
+    out = set()
+    for k, gs in PARSES.items():
+        v = env.get(k, "")
+        if not isinstance(v, str):
+            out |= gs
+    return out
 
 
 def classify(g, op, a, f, env=None):
@@ -551,6 +721,16 @@ def classify(g, op, a, f, env=None):
                 return "cache_control:stale-after-view-update"
         return "stale:cache_control"
     if base in ("GET", "params", "POST"):
+        c = (env or {}).get("webob._parsed_query_vars")
+        if c and base != "POST":
+            def text(t):
+                try:
+                    t.encode("utf8")
+                    return isinstance(t, str)
+                except Exception:  # noqa
+                    return False
+            if any(not text(k) or not text(v) for k, v in c[0].items()):
+                return "GET:refused-value-stays-in-view"      # an item that could not be written to QUERY_STRING
         return "stale:" + base
     if base == "cookies":
         return "stale:cookies"
@@ -583,6 +763,8 @@ BODY_KEYS = {"CONTENT_LENGTH", "wsgi.input", "webob.is_body_seekable", "wsgi.inp
 
 def header_key(name):
     """The CGI key of a header name, written independently of webob: RFC 3875 section 4.1.18."""
+    if not isinstance(name, str):
+        return "<not a header name>"
     u = name.upper().replace("-", "_")
     if u in ("CONTENT_TYPE", "CONTENT_LENGTH") and "_" not in name:
         return u
@@ -603,11 +785,23 @@ def allowed_keys(op):
         return None
     if t == "hdr":
         m = op[3]
-        if m[0] in ("set", "del", "pop", "setdefault"):
+        if m[0] in ("set", "del", "pop", "setdefault", "pop_nodefault", "setdefault_none"):
             return {header_key(m[1])}
-        if m[0] == "update":
+        if m[0] in ("update", "update_pairs", "update_md"):
             return {header_key(a) for a, _ in m[1]}
         return None
+    if t == "construct":
+        keys = set()
+        for n, _ in op[3]:
+            if n in ("body", "text", "json", "json_body", "body_file"):
+                keys |= BODY_KEYS
+            elif n in ATTR_KEY:
+                keys.add(ATTR_KEY[n])
+            else:
+                return None
+        return keys
+    if t == "knob":
+        return set()          # a storage knob of the wrapper: nothing in the environ
     if t == "GET":
         return {"QUERY_STRING"}
     if t == "cookies":
@@ -621,10 +815,17 @@ def allowed_keys(op):
 
 def check_view_write(W, step, op, ret, last):
     """A successful write through a GET / cookies / cache_control view is in the environ: a brand-new Request sees it."""
-    if isinstance(ret, Err) or last is None:
-        return None
     env = W.env
     t = op[0]
+    if isinstance(ret, Err) and t == "GET" and last is not None and last.get is not None and last.items is not None:
+        # a refused write must not stay in the view either
+        now = [[canon(a), canon(b)] for a, b in last.get.items()]
+        told = catch(lambda: [[a, b] for a, b in fresh_request(env).GET.items()])
+        if op[3][0] not in BULK_MD and now != last.items and now != told:
+            return ("GET:refused-value-stays-in-view", "step %d %r raised %s, yet the view changed from %r to %r while "
+                    "QUERY_STRING=%r" % (step, op, ret.name, last.items, now, env.get("QUERY_STRING")))
+    if isinstance(ret, Err) or last is None:
+        return None
     if t == "GET" and last.get is not None:
         want = [[a, b] for a, b in last.get.items()]
         got = catch(lambda: [[a, b] for a, b in fresh_request(env).GET.items()])
@@ -649,8 +850,10 @@ def check_view_write(W, step, op, ret, last):
         c, before = last.cc
         after = dict(c.properties)
         if after != before:
-            got = catch(lambda: dict(fresh_request(env).cache_control.properties))
-            if got != after:
+            # (what must be in the environ is the text the view serialises to; whether that text reads back as the same
+            #  typed value is C12's round trip)
+            got = env.get("HTTP_CACHE_CONTROL")
+            if got != catch(str, c):
                 from webob.cachecontrol import UpdateDict
                 live = isinstance(c.properties, UpdateDict) and c.properties.updated is not None
                 return ("write-lands:cache_control-not-written" if live else "cache_control:assigned-object-not-live",
@@ -670,14 +873,37 @@ def check_write(W, step, op, before, ret):
         if extra:
             return ("write-lands:other-key-changed", "step %d %r changed environ keys %r; only %r may change"
                     % (step, op, sorted(extra), sorted(allowed)))
-    if isinstance(ret, Err):
-        return None
     t = op[0]
+    if isinstance(ret, Err):
+        single = (t in ("setattr", "delattr") and op[2] not in ("cookies", "headers")) \
+            or (t == "hdr" and op[3][0] in ("set", "del", "pop", "setdefault", "pop_nodefault", "setdefault_none")) \
+            or (t == "GET" and op[3][0] not in BULK_MD + ("set",)) or (t == "cookies" and op[3][0] in ("set", "del", "pop_nodefault"))
+        # (GET[k] = v is delete-then-append in MultiDict.__setitem__: a refused value has already removed the old ones)
+        if single:
+            changed = {k for k in set(before) | set(after) if before.get(k) != after.get(k)}
+            if changed:
+                return ("refused-write:environ-changed", "step %d %r raised %s but changed environ keys %r"
+                        % (step, op, ret.name, sorted(changed)))
+        return None
+    if t == "construct":
+        for n, spec in op[3]:
+            v = decode_value(spec)
+            if n in VERBATIM and isinstance(v, str) and env.get(ATTR_KEY[n]) != v:
+                return ("write-lands:constructor-keyword-not-stored", "step %d %r: environ[%r] = %r"
+                        % (step, op, ATTR_KEY[n], env.get(ATTR_KEY[n])))
     if t == "setattr" and op[2] in ATTR_KEY:
         n, v, key = op[2], decode_value(op[3]), ATTR_KEY[op[2]]
+        typed_ok = isinstance(v, str) or not isinstance(v, (bytes, bytearray, bool, int, float, list)) \
+            or (type(v) is int and n in ("content_length", "max_forwards", "server_port", "date", "if_modified_since",
+                                         "if_unmodified_since", "if_range")) \
+            or (type(v) is float and n in ("date", "if_modified_since", "if_unmodified_since")) \
+            or (type(v) is list and n in ("accept", "accept_charset", "accept_encoding", "accept_language", "range",
+                                          "authorization"))
+        if type(v) is object or n in VERBATIM and not isinstance(v, str):
+            typed_ok = False
         if v is None and n not in ("scheme", "http_version", "server_name", "server_port", "path_info", "upath_info",
                                    "if_match", "if_none_match", "cache_control", "body_file_raw", "is_body_readable",
-                                   "cookies"):
+                                   "cookies", "host", "urlvars", "urlargs"):
             if key in env:
                 return ("write-lands:none-not-removed", "step %d %r: %s still holds %r" % (step, op, key, env[key]))
         elif isinstance(v, str) and n in VERBATIM:
@@ -686,7 +912,7 @@ def check_write(W, step, op, before, ret):
         elif isinstance(v, int) and not isinstance(v, bool) and n in ("content_length", "max_forwards", "server_port"):
             if env.get(key) != str(v):
                 return ("write-lands:not-stored", "step %d %r: environ[%r] = %r" % (step, op, key, env.get(key)))
-        elif v is not None and n not in ("cookies", "is_body_seekable", "is_body_readable", "body_file_raw"):
+        elif v is not None and typed_ok and n not in ("cookies", "is_body_seekable", "is_body_readable", "body_file_raw"):
             # (typed setters may serialise an empty value to "header absent")
             if key in env and not isinstance(env[key], str):
                 return ("write-lands:not-stored", "step %d %r: environ[%r] = %r is not header text"
@@ -697,7 +923,8 @@ def check_write(W, step, op, before, ret):
             return ("write-lands:del-not-removed", "step %d %r: %s still holds %r" % (step, op, key, env[key]))
     if t == "hdr":
         m = op[3]
-        if m[0] == "set" and env.get(header_key(m[1])) != m[2]:
+        m = [m[0]] + [decode_value(x) for x in m[1:]]
+        if m[0] == "set" and isinstance(m[2], (str, int, float, bytes, type(None))) and env.get(header_key(m[1])) != m[2]:
             return ("write-lands:header-not-stored", "step %d %r: environ[%r] = %r" % (step, op, header_key(m[1]),
                                                                                       env.get(header_key(m[1]))))
         if m[0] in ("del", "pop") and header_key(m[1]) in env:
@@ -708,6 +935,11 @@ def check_write(W, step, op, before, ret):
                     return ("write-lands:header-not-stored", "step %d %r: environ[%r] = %r" % (step, op, header_key(a),
                                                                                               env.get(header_key(a))))
     return None
+
+
+# how webob's request setters, views and methods refuse an argument (anything else escaping from a write is a crash)
+REFUSALS = {"KeyError", "IndexError", "TypeError", "ValueError", "AttributeError", "UnicodeEncodeError", "UnicodeDecodeError",
+            "LookupError", "DeprecationWarning", "AssertionError", "DisconnectionError", "OverflowError"}
 
 
 def run_history(envspec, ops, getters=None, lazy_seed=None):
@@ -728,6 +960,9 @@ def run_history(envspec, ops, getters=None, lazy_seed=None):
         before = env_snapshot(W.env)
         last = LastView()
         ret = apply_op(W, op, last)
+        if isinstance(ret, Err) and ret.name not in REFUSALS:
+            return ("refusal:unexpected-exception", "step %d %r raised %s (refusals seen from webob's setters and views: %s)"
+                    % (i, op, ret.name, ", ".join(sorted(REFUSALS))))
         bad = check_write(W, i, op, before, ret) or check_view_write(W, i, op, ret, last)
         if bad:
             return bad
@@ -948,7 +1183,13 @@ def rand_header_value(rng, name):
 def rand_op(rng, focus=None):
     """One operation; `focus` biases towards a family (None = everything)."""
     fam = focus or rng.choice(["attr", "attr", "attr", "del", "env", "env", "env", "hdr", "hdr", "GET", "GET", "cookies",
-                               "cookies", "cc", "cc", "hold", "body", "call", "read", "misc"])
+                               "cookies", "cc", "cc", "hold", "body", "call", "read", "misc", "knob", "shape", "shape"])
+    if fam == "knob":
+        return rand_knob_op(rng)
+    if fam == "shape":
+        return rand_shape_op(rng)
+    if fam == "outside":
+        return rand_outside_op(rng) if rng.random() < 0.6 else rand_op(rng, None)
     w = rng.randrange(2)
     if fam == "attr":
         n = rng.choice(sorted(ATTR_VALUES))
@@ -1011,9 +1252,145 @@ def rand_op(rng, focus=None):
     raise ValueError(fam)
 
 
+HEADER_NAMES_WIDE = ["X-\xdcn\xef", "stra\xdfe", "STRASSE", "\ufb01-x", "FI-X", "\u0131d", "ID", "K-\u212a", "k-k", "", "x y", "X:Y"]
+FLAG_KEYS = {"wsgi.input_terminated": [True, False], "webob.is_body_readable": [True, False],
+             "webob.is_body_seekable": [True, False], "paste.urlvars": [{"dict": [["id", "1"]]}],
+             "wsgiorg.routing_args": [{"tuple": [{"tuple": ["x"]}, {"dict": [["k", "v"]]}]}, {"tuple": [{"tuple": []}, {"dict": []}]}],
+             "webob.adhoc_attrs": [{"dict": [["foo", "from-environ"]]}]}
+CLASS_NAMES = ["Request", "Request", "BaseRequest", "SmallTemp"]
+BLANK_KW = [
+    {"base_url": "https://host.example:8443/app"}, {"base_url": "http://h.example"},
+    {"headers": {"dict": [["X-Foo", "1"], ["content-TYPE", "text/html; charset=latin-1"], ["Cookie", "a=1; b=2"]]}},
+    {"POST": {"dict": [["f", "v"], ["g", "caf\xe9"]]}}, {"POST": {"bytes": b"a=1&b=2".hex()}}, {"POST": "x=1"},
+    {"environ": {"dict": [["HTTP_CACHE_CONTROL", "no-cache"], ["REMOTE_USER", "u"]]}},
+    {"method": "PUT", "content_type": "application/json", "body": {"bytes": b"{}".hex()}},
+    {"POST": {"dict": [["up", {"tuple": ["n.txt", {"bytes": b"data".hex()}]}]]}},
+]
+CONSTRUCT_KW = [[["method", "PUT"]], [["content_type", "text/html; charset=latin-1"]], [["query_string", "k=v"]],
+                [["host", "c.example:81"]], [["body", {"bytes": b"from-kw".hex()}], ["method", "POST"]],
+                [["charset", "utf-8"]], [["charset", "latin-1"]], [["accept", "text/html"]], [["cookies", {"dict": [["k", "1"]]}]],
+                [["headers", {"dict": [["X-Foo", "kw"], ["Host", "k.example"]]}]], [["user_agent", "kw/1"], ["pragma", None]],
+                [["nonsense", 1]], [["POST", {"dict": []}]], [["cache_control", "no-store"]], []]
+
+
+def rand_knob_op(rng):
+    """Configuration after construction: environ flags, the wrapper's class knobs, a new wrapper built with keywords,
+    the same methods called with keyword arguments."""
+    w = rng.randrange(2)
+    r = rng.random()
+    if r < 0.35:
+        k = rng.choice(sorted(FLAG_KEYS))
+        return ["env_del", k] if rng.random() < 0.25 else ["env_set", k, rng.choice(FLAG_KEYS[k])]
+    if r < 0.5:
+        return ["knob", w, "request_body_tempfile_limit", rng.choice([0, 4, 10240])]
+    if r < 0.8:
+        return ["construct", w, rng.choice(CLASS_NAMES), rng.choice(CONSTRUCT_KW)]
+    return ["callkw", w] + rng.choice([
+        ["remove_conditional_headers", [], [["remove_encoding", False]]],
+        ["remove_conditional_headers", [], [["remove_range", False], ["remove_match", {"true": 1}]]],
+        ["path_info_pop", [], [["pattern", "[a-z]+"]]], ["relative_url", ["x"], [["to_application", {"true": 1}]]],
+        ["as_bytes", [], [["skip_body", 3]]], ["decode", [], [["charset", "latin-1"], ["errors", "replace"]]],
+        ["encset", ["HTTP_X_ENC", "caf\xe9"], [["encattr", "url_encoding"]]],
+    ])
+
+
+def rand_shape_op(rng):
+    """The alternative argument types and optional arguments of the view and setter APIs."""
+    w = rng.randrange(2)
+    fam = rng.choice(["hdr", "hdr", "GET", "GET", "GET", "cookies", "attr", "attr"])
+    pairs = lambda ks, vs: [[rng.choice(ks), rng.choice(vs)] for _ in range(rng.randrange(3))]  # noqa
+    if fam == "hdr":
+        names = HEADER_NAMES + HEADER_NAMES_WIDE
+        t = rng.choice(["update_pairs", "update_md", "pop_nodefault", "setdefault_none", "assign_pairs", "assign_headers",
+                        "set", "update"])
+        n = rng.choice(names)
+        if t in ("pop_nodefault", "setdefault_none"):
+            m = [t, n]
+        elif t == "set":
+            m = [t, n, rng.choice(TEXT_POOL + ["\u20ac", "a\r\nb"])]
+        else:
+            m = [t, [[x, rand_header_value(rng, x)] for x in [rng.choice(names) for _ in range(rng.randrange(4))]]]
+        return ["hdr", w, rand_how(rng), m]
+    if fam == "GET":
+        t = rng.choice(["update_dict", "update_md", "update_kw", "extend_dict", "extend_md", "extend_iter", "extend_kw", "pop"])
+        if t == "pop":
+            return ["GET", w, rand_how(rng), ["pop", rng.choice(GET_KEYS), None]]
+        ks = ["a", "b", "c"] if t.endswith("_kw") else GET_KEYS
+        return ["GET", w, rand_how(rng), [t, pairs(ks, GET_VALS)]]
+    if fam == "cookies":
+        t = rng.choice(["pop_nodefault", "setdefault", "update_pairs", "assign_pairs"])
+        n, v = rng.choice(COOKIE_NAMES), rng.choice(COOKIE_VALS)
+        m = [t, n] if t == "pop_nodefault" else ([t, n, v] if t == "setdefault" else [t, pairs(COOKIE_NAMES[:3], COOKIE_VALS)])
+        return ["cookies", w, rand_how(rng), m]
+    n, v = rng.choice([
+        ("range", {"obj": "range"}), ("accept", {"obj": "accept"}), ("accept", {"obj": "accept_none"}),
+        ("accept", {"obj": "accept_invalid"}), ("accept_language", {"obj": "accept_language"}),
+        ("accept_language", {"dict": [["en", 0.5], ["fr", 1.0]]}), ("if_match", {"obj": "etag"}), ("if_none_match", {"obj": "etag"}),
+        ("if_range", {"obj": "ifrange"}), ("date", {"obj": "timedelta"}), ("date", {"obj": "date"}), ("date", {"obj": "timetuple"}),
+        ("if_modified_since", {"obj": "float"}), ("cache_control", {"obj": "cc_response"}), ("cache_control", {"bytes": b"no-cache".hex()}),
+        ("authorization", ["Digest", {"dict": [["realm", "r"], ["nonce", "n"]]}]), ("authorization", {"tuple": ["Basic", "QQ=="]}),
+        ("body", {"obj": "bytearray"}), ("body_file", {"bytes": b"abc".hex()}), ("text", {"bytes": b"abc".hex()}),
+        ("json", {"obj": "object"}), ("content_length", "12"), ("content_type", {"obj": "accept"}), ("urlargs", ["x"]),
+        ("cookies", {"pairs": [["a", "1"], ["A", "2"]]}), ("headers", {"pairs": [["X-A", "1"], ["x-a", "2"]]}),
+        ("headers", {"multidict": [["X-A", "1"], ["X-A", "2"]]}),
+    ])
+    return ["setattr", w, n, v]
+
+
+OUT_VALS = [None, 5, 2.5, {"true": 1}, {"bytes": b"ab".hex()}, "\udc80", ["x"], {"obj": "object"}, "\u0100\u20ac"]
+OUT_NAMES = [None, 5, "", "\xfc", "a=b", "\udc80", {"bytes": b"a".hex()}]
+
+
+def rand_outside_op(rng):
+    """Outside the model's value domain (text, native strings, code points < 256): non-text values and names through the
+    views and setters, non-string values under the CGI keys, cache-control values of other types."""
+    w = rng.randrange(2)
+    fam = rng.choice(["GET", "GET", "GET", "cookies", "hdr", "attr", "attr", "env", "cc"])
+    v = rng.choice(OUT_VALS)
+    if fam == "GET":
+        t = rng.choice(["set", "add", "setdefault", "setdefault_none", "update", "extend", "pop", "set_key", "del_key"])
+        k = rng.choice(["a", "b", "z"])
+        if t in ("set", "add", "setdefault", "pop"):
+            return ["GET", w, rand_how(rng), [t, k, v]]
+        if t == "setdefault_none":
+            return ["GET", w, rand_how(rng), [t, k]]
+        if t == "set_key":
+            return ["GET", w, rand_how(rng), ["add", decode_name(rng.choice(OUT_NAMES)), "x"]]
+        if t == "del_key":
+            return ["GET", w, rand_how(rng), ["del", decode_name(rng.choice(OUT_NAMES))]]
+        return ["GET", w, rand_how(rng), [t, [["a", "1"], [k, v]]]]
+    if fam == "cookies":
+        if rng.random() < 0.5:
+            return ["cookies", w, "fresh", ["set", "a", v]]
+        return ["cookies", w, "fresh", [rng.choice(["set", "del"]), decode_name(rng.choice(OUT_NAMES)), "1"][:3]]
+    if fam == "hdr":
+        if rng.random() < 0.5:
+            return ["hdr", w, "fresh", ["set", rng.choice(["X-Foo", "Cookie", "Cache-Control", "Content-Type", "Host"]), v]]
+        return ["hdr", w, "fresh", [rng.choice(["set", "pop", "setdefault"]), rng.choice(HEADER_NAMES_WIDE + [5, None]), "v"]]
+    if fam == "attr":
+        n = rng.choice(["method", "content_length", "content_type", "host", "query_string", "accept", "if_match", "date", "range",
+                        "cache_control", "cookies", "body", "text", "json", "body_file", "path_info", "script_name",
+                        "url_encoding", "urlvars", "charset", "authorization", "max_forwards", "server_port", "user_agent",
+                        "if_range", "accept_language", "scheme"])
+        return ["setattr", w, n, v]
+    if fam == "env":
+        k = rng.choice(["QUERY_STRING", "HTTP_COOKIE", "HTTP_CACHE_CONTROL", "CONTENT_TYPE", "CONTENT_LENGTH", "HTTP_HOST",
+                        "PATH_INFO", "HTTP_ACCEPT", "HTTP_IF_MATCH", "REQUEST_METHOD"])
+        return ["env_set", k, rng.choice([None, 5, {"bytes": b"a=1".hex()}, "a=\u20ac\u0100"])]
+    a = rng.choice(["max_age", "no_cache", "max_stale", "min_fresh", "no_store"])
+    return ["cc", w, rand_how(rng), ["set", a, rng.choice(["5", "", "a b", "\"", 1.5, {"bytes": b"x".hex()}, {"obj": "object"}, "\u20ac"])]]
+
+
+def decode_name(spec):
+    return spec
+
+
 def rand_envspec(rng):
     kind = rng.choice(["blank", "blank", "server"])
     spec = {"kind": kind, "path": rng.choice(["/", "/a/b?a=1&b=2", "/p?a=1", "/caf%C3%A9?x=%C3%A9", "/s/t/u"]), "set": []}
+    spec["classes"] = [rng.choice(CLASS_NAMES), rng.choice(CLASS_NAMES)]
+    if kind == "blank" and rng.random() < 0.35:
+        spec["blank_kw"] = rng.choice(BLANK_KW)
     if kind == "server":
         spec["method"] = rng.choice(["GET", "POST"])
     for _ in range(rng.randrange(4)):
@@ -1036,6 +1413,8 @@ def rand_history(rng, maxlen, focus=None):
     foci = None
     if focus == "mixed-cache":
         foci = ["GET", "cookies", "cc", "env", "hdr", "hold", "attr"]
+    if focus == "config":
+        foci = ["knob", "knob", "body", "attr", "read", "GET", "shape", "call"]
     ops = []
     for _ in range(n):
         f = rng.choice(foci) if foci else focus
@@ -1141,6 +1520,15 @@ def cmdop(m):
         return "(MultiDict.OExtend %s)" % cpairs(m[1])
     if t == "clear":
         return "MultiDict.OClear"
+    if t in ("update_dict", "update_kw", "extend_kw"):
+        # (multidict.py:257-258: the keyword arguments of extend() go through update(), i.e. they REPLACE existing keys)
+        return "(MultiDict.OUpdate %s)" % cpairs(list({a: b for a, b in m[1]}.items()))
+    if t == "update_md":
+        return "(MultiDict.OUpdateMD %s)" % cpairs(m[1])
+    if t == "extend_dict":
+        return "(MultiDict.OExtend %s)" % cpairs(list({a: b for a, b in m[1]}.items()))
+    if t in ("extend_md", "extend_iter"):
+        return "(MultiDict.OExtend %s)" % cpairs(m[1])
     raise ValueError(m)
 
 
@@ -1401,6 +1789,11 @@ def model_op(W, op):
             return "(OHdrSetDefault _ _ %s %s)" % (cstr(m[1]), cstr(m[2]))
         if m[0] == "update":
             return "(OHdrUpdate _ _ %s)" % cpairs(list({a: b for a, b in m[1]}.items()))
+        if m[0] == "update_pairs":
+            return "(OHdrUpdate _ _ %s)" % cpairs(m[1])
+        if m[0] == "pop_nodefault":      # MutableMapping.pop(key): the value, or KeyError
+            present = header_key(m[1]) in W.env
+            return "(%s _ _ %s)" % ("OHdrPop" if present else "OHdrDel", cstr(m[1]))
         return None
     if t == "hold":
         return {"GET": "(OHold _ _ HGet)", "cc": "(OHold _ _ HCC)"}.get(op[2])
@@ -1497,15 +1890,19 @@ def rand_model_op(rng):
         return ["env_set", k, rng.choice(pool)]
     if fam == "hdr":
         n = rng.choice(HEADER_NAMES)
-        t = rng.choice(["set", "set", "set", "del", "pop", "update", "setdefault"])
+        t = rng.choice(["set", "set", "set", "del", "pop", "update", "setdefault", "update_pairs", "pop_nodefault"])
         if t in ("set", "setdefault"):
             m = [t, n, rand_header_value(rng, n)]
-        elif t in ("del", "pop"):
+        elif t in ("del", "pop", "pop_nodefault"):
             m = [t, n]
         else:
             m = [t, [[x, rand_header_value(rng, x)] for x in [rng.choice(HEADER_NAMES) for _ in range(rng.randrange(3))]]]
         return ["hdr", w, rand_how(rng), m]
     if fam == "GET":
+        if rng.random() < 0.25:
+            t = rng.choice(["update_dict", "update_md", "update_kw", "extend_dict", "extend_md", "extend_iter", "extend_kw"])
+            ks = ["a", "b", "c"] if t.endswith("_kw") else GET_KEYS
+            return ["GET", w, rand_how(rng), [t, [[rng.choice(ks), rng.choice(GET_VALS)] for _ in range(rng.randrange(3))]]]
         return ["GET", w, rand_how(rng), rand_md(rng)]
     if fam == "cookies":
         t = rng.choice(["set", "set", "del", "clear"])
@@ -1526,6 +1923,10 @@ def rand_model_case(rng, maxlen):
     for _ in range(rng.randrange(3)):
         k = rng.choice(["HTTP_COOKIE", "HTTP_CACHE_CONTROL", "CONTENT_TYPE", "HTTP_IF_MATCH", "HTTP_X_FOO"])
         spec["set"].append([k, rng.choice(ENV_KEYS[k])])
+    # configurations: the wrapper classes, Request.blank's keywords
+    spec["classes"] = [rng.choice(CLASS_NAMES), rng.choice(CLASS_NAMES)]
+    if spec["kind"] == "blank" and rng.random() < 0.3:
+        spec["blank_kw"] = rng.choice(BLANK_KW[:3] + BLANK_KW[6:7])
     ops = [rand_model_op(rng) for _ in range(rng.randrange(1, maxlen + 1))]
     probes = [[rng.randrange(2), g] for g in rng.sample(MODEL_GETTERS, rng.randrange(2, 7))]
     return spec, ops, probes
@@ -1542,7 +1943,32 @@ KNOWN_WITNESSES = [
      [["hold", 0, "cc"], ["cc", 0, 0, ["set", "no_cache", {"true": 1}]], ["hdr", 0, "fresh", ["set", "Cache-Control", "max-age=5"]]]),
     ({"kind": "blank", "path": "/", "set": []},
      [["setattr", 0, "cache_control", {"dict": [["max-age", 5]]}], ["cc", 0, "fresh", ["set", "max_age", 10]]]),
+    # multidict.py:297-304 before fixes/C01-3: a value that cannot be written to QUERY_STRING stays in the view
+    ({"kind": "blank", "path": "/p?a=1", "set": []}, [["GET", 0, "fresh", ["add", "z", None]]]),
 ]
+
+
+def outside_matrix():
+    """Every non-text value through every GET mutator that stores one, through fresh and held views; non-string values
+    under the parsed CGI keys; non-text cookie and header values."""
+    out = []
+    spec = {"kind": "blank", "path": "/p?a=1&b=2", "set": [["HTTP_COOKIE", "a=1"], ["HTTP_CACHE_CONTROL", "max-age=5"]]}
+    for v in OUT_VALS:
+        for m in (["set", "a", v], ["set", "z", v], ["add", "a", v], ["setdefault", "z", v], ["setdefault", "a", v],
+                  ["update", [["z", v]]], ["extend", [["z", v]]], ["pop", "a", v], ["pop", "z", v]):
+            out.append((spec, [["GET", 0, "fresh", m], ["GET", 1, "fresh", ["add", "ok", "1"]]]))
+            out.append((spec, [["hold", 0, "GET"], ["GET", 1, 0, m], ["env_set", "QUERY_STRING", "a=1&b=2"]]))
+        out.append((spec, [["cookies", 0, "fresh", ["set", "a", v]], ["cookies", 1, "fresh", ["set", "b", "2"]]]))
+        out.append((spec, [["hdr", 0, "fresh", ["set", "X-Foo", v]], ["hdr", 1, "fresh", ["set", "Cookie", v]]]))
+        for k in ("QUERY_STRING", "HTTP_COOKIE", "HTTP_CACHE_CONTROL", "CONTENT_TYPE", "CONTENT_LENGTH"):
+            if not isinstance(v, str):
+                out.append((spec, [["env_set", k, v], ["GET", 0, "fresh", ["add", "n", "1"]], ["cookies", 0, "fresh", ["set", "n", "1"]],
+                                   ["cc", 0, "fresh", ["set", "max_age", 1]]]))
+    out.append((spec, [["GET", 0, "fresh", ["setdefault_none", "z"]]]))
+    for n in OUT_NAMES:
+        out.append((spec, [["GET", 0, "fresh", ["add", n, "x"]], ["cookies", 0, "fresh", ["set", n, "x"]],
+                           ["hdr", 0, "fresh", ["set", n, "x"]]]))
+    return out
 
 
 def small_universe():
@@ -1769,10 +2195,10 @@ def stage_strlib(ctx):
 
 def stage_envview(ctx):
     rng = ctx.sub_rng("envview")
-    n = ctx.scale(320, 2400)
+    n = ctx.scale(280, 2400)
     maxlen = ctx.scale(8, 14)
     cases = []
-    for spec, ops in KNOWN_WITNESSES:
+    for spec, ops in KNOWN_WITNESSES[:2]:      # (the third one stores a non-text value: outside the model's domain)
         cases.append(corr_case(spec, ops, [[0, ["cc"]], [1, ["hdr", "cache-control"]]]))
     for _ in range(n):
         spec, ops, probes = rand_model_case(rng, maxlen)
@@ -1854,8 +2280,27 @@ def stage_oracle(ctx):
             jobs.append((inits[0], list(ops), "final", FOCUS_GETTERS))
     oracle_many(ctx, "exhaustive-small", jobs)
 
+    # configurations after construction, alternative argument shapes
+    rng = ctx.sub_rng("config")
+    jobs = []
+    for i in range(ctx.scale(300, 8000)):
+        spec, ops = rand_history(rng, ctx.scale(10, 20), ["config", "shape"][i % 2])
+        jobs.append((spec, ops, [None, rng.randrange(10 ** 6), "final"][i % 3], None))
+    oracle_many(ctx, "config-and-shapes", jobs)
+
+    # outside the model's value domain: what remains of the statement there
+    jobs = []
+    for spec, ops in outside_matrix():
+        jobs.append((spec, ops, None, FOCUS_GETTERS))
+        jobs.append((spec, ops, "final", FOCUS_GETTERS))
+    rng = ctx.sub_rng("outside")
+    for i in range(ctx.scale(200, 8000)):
+        spec, ops = rand_history(rng, ctx.scale(10, 20), "outside")
+        jobs.append((spec, ops, [None, rng.randrange(10 ** 6), "final"][i % 3], None))
+    oracle_many(ctx, "outside-domain", jobs)
+
     rng = ctx.sub_rng("oracle")
-    m = ctx.scale(1600, 24000)
+    m = ctx.scale(800, 20000)
     jobs = []
     for i in range(m):
         focus = [None, "mixed-cache", None, "body", "mixed-cache", None][i % 6]
@@ -1874,13 +2319,16 @@ def fill_evidence(ctx):
         "(cache tuples included), value through the long-lived wrapper and through a brand-new Request for 2-6 probes, and "
         "the final environ; strlib: str.upper / str.title / _trans_name / _trans_key on all latin-1 characters in three "
         "contexts plus random names.  oracle: every history of depth<=%d over a %d-operation universe (cache-focused getters), "
-        "random histories over ALL public getters of both long-lived wrappers (%d getters, two read orders, lazy and eager "
+        "random histories (ordinary, configuration/shape-focused and outside-domain) over ALL public getters of both long-lived wrappers (%d getters, two read orders, lazy and eager "
         "priming) against a brand-new Request per getter, plus the write-lands check on every write; every counted case is a "
         "distinct history with at least one write" % (maxlen, depth, len(U), len(ALL_GETTERS)))
     ctx.extra["exhaustive"] = False
     ctx.extra["getters_compared"] = ALL_GETTERS
     ctx.assume += [
-        "environ values under the CGI keys are native strings (str); GET/cookie/header values are encodable text (no lone surrogates)",
+        "theorems: environ values under the CGI keys are native strings, view values are encodable text; the oracle also visits "
+        "the outside (None/int/bytes/objects/lone surrogates/code points > 255 as values, keys and names; non-strings under the "
+        "CGI keys) and checks there: coherence of every getter that does not parse a non-string CGI value, refusal by one of "
+        "webob's exception classes, no half-landed single-item write",
         "raw environ edits address the underlying CGI keys, never webob's private webob._* cache keys",
         "POST/params are compared with a brand-new Request only while no parse is cached for the current body object, "
         "charset-dependent getters with a brand-new Request that has been told the wrapper's charset (the two documented "
